@@ -31,11 +31,10 @@ R3_EXCEPTIONS = {
 def loop_relaxed(body, blocks):
     """blocks plus the headers of loops that contain them (a zero-iteration loop has nothing to release)"""
     out = set(blocks)
-    for r in blocks:
-        back = body.reachable(r)
-        for h in range(body.nblocks):
-            if h != r and body.dominates(h, r) and h in back:
-                out.add(h)
+    for h in range(body.nblocks):
+        lb = body.natural_loop(h)
+        if lb and any(r in lb for r in blocks):
+            out.add(h)
     return out
 
 
